@@ -2,7 +2,7 @@
    values), theorems only.  Each is closed by `exact <lemma>` and followed by Print Assumptions.
    Model: C05/Model.v (with fixes/F05b.patch applied to add_config and fixes/F05d.patch to SyncLogger.connect, fixes/F05c.patch to the reset acknowledgement).  Clauses that the code does NOT
    satisfy are stated as Definitions `..._full` with a theorem `..._refuted` (finding F05a). *)
-Require Import CF.C05.Model CF.C05.Proofs_create CF.C05.Proofs_add CF.C05.Proofs_unpack CF.C05.Proofs_flags CF.C05.Proofs_hist CF.C05.Proofs_sync CF.C05.SyncThreads CF.C05.Proofs_threads CF.C05.Examples.
+Require Import CF.C05.Model CF.C05.Proofs_create CF.C05.Proofs_add CF.C05.Proofs_unpack CF.C05.Proofs_flags CF.C05.Proofs_hist CF.C05.Proofs_sync CF.C05.SyncThreads CF.C05.Proofs_threads CF.C05.Wire CF.C05.Examples.
 Open Scope Z_scope.
 
 (* ---------------------------------------------------------------- acceptance *)
@@ -430,3 +430,29 @@ Theorem C05_threads_system_projection : forall evs ls i s, nth_error ls i = Some
   nth_error (fst (sys_run ls evs)) i = Some (fst (t_run s (concat (map (proj i) evs)))).
 Proof. exact sys_projection. Qed.
 Print Assumptions C05_threads_system_projection.
+
+(* ---------------------------------------------------------------- what is TRANSMITTED (Wire.v) *)
+(* The link keeps the packet object and reads it when the radio transmits (and again for a resend).  Contract:
+   if no packet object is written while the link holds a reference to it, then for every program and every
+   schedule of transmissions and resends the air carries what was commanded, in order. *)
+Theorem C05_wire_contract : forall ops, disciplined w_init ops = true ->
+  let s := w_run w_init ops in
+  w_out s ++ map (rd (w_heap s)) (w_queue s) = w_cmd s /\ Forall (fun p => fst p = snd p) (w_resent s).
+Proof. exact wire_contract. Qed.
+Print Assumptions C05_wire_contract.
+
+(* LogConfig.create() allocates a fresh packet for every create/append message: for every list of messages
+   (hence every variable count and every split, C05_create_messages_exact_partial) and every lag of the radio,
+   transmitted ++ still held = the messages, in order; resends repeat them exactly *)
+Theorem C05_create_transmitted_is_commanded : forall msgs sched,
+  let s := w_run w_init (create_ops 0 msgs sched) in
+  w_out s ++ map (rd (w_heap s)) (w_queue s) = msgs /\ Forall (fun p => fst p = snd p) (w_resent s).
+Proof. exact create_transmitted_is_commanded. Qed.
+Print Assumptions C05_create_transmitted_is_commanded.
+
+(* refutation of one packet object re-filled per message (seeded/C05-j) *)
+Theorem C05_shared_packet_refuted : forall m1 m2, m1 <> m2 ->
+  let s := w_run w_init [WNew m1; WSend 0; WSet 0 m2; WSend 0; WTx; WTx; WResend 0] in
+  w_cmd s = [m1; m2] /\ w_out s = [m2; m2] /\ w_out s <> w_cmd s /\ w_resent s = [(m1, m2)].
+Proof. exact shared_packet_refuted. Qed.
+Print Assumptions C05_shared_packet_refuted.
